@@ -39,8 +39,19 @@ def run(tier, corrupt=False):
     types = library()
     hd = 2 if tier == "quick" else 3
     with scratch("c19-") as tmp:
-        progs = full_corpus(tmp, tier)
-        recs, stats = collect(tier, tmp, progs, types, "mut", rich=False, properties=("PImmutable",), tag="mut", hdepth=hd)
+        progs = full_corpus(tmp, tier, n_generated=(200 if tier == "quick" else 500))
+        if tier == "quick":
+            recs, stats = collect(tier, tmp, progs, types, "mut", rich=False, properties=("PImmutable",), tag="mut", hdepth=hd)
+        else:
+            # histories of 3 actions on the hand-written programs, of 2 on the generated ones (the number of histories is cubic in the targets)
+            hand = [p for p in progs if not p.get("gen")]
+            gen_ = [p for p in progs if p.get("gen")]
+            r_a, stats = collect(tier, tmp, hand, types, "mut", rich=False, properties=("PImmutable",), tag="mut3", hdepth=3)
+            r_b, s_b = collect(tier, tmp, gen_, {**types, **{p["name"]: {"kind": "struct", "dir": p["dir"], "code": p["code"]} for p in hand if p["kind"] == "struct"}},
+                               "mut", rich=False, properties=("PImmutable",), tag="mut2", hdepth=2)
+            recs = r_a + r_b
+            stats["states"] += s_b["states"]
+            stats["transitions"] += s_b["transitions"]
         recs = [r for r in recs if r["kind"] == "mut"]
         require(len(recs) > 500, f"too few histories from TLC ({len(recs)})")
         with scratch("c19w-") as wt:
